@@ -983,7 +983,14 @@ func runShutdown(s shutScn) (sig, msg string) {
 	// idle connections were closed by Shutdown (the client sees EOF), whatever Shutdown returned;
 	// so were the ones that slipped in while it was running
 	lateWG.Wait()
-	for i, c := range append(append(append([]net.Conn(nil), idle...), fresh...), late...) {
+	mustBeClosed := append(append([]net.Conn(nil), idle...), fresh...)
+	if serr == nil {
+		// nil: no connection remains, whenever it was accepted. When Shutdown gives up at its deadline, a
+		// connection whose accept was still in flight at that moment may be left (the caller has been told
+		// that the shutdown is incomplete).
+		mustBeClosed = append(mustBeClosed, late...)
+	}
+	for i, c := range mustBeClosed {
 		c.SetReadDeadline(time.Now().Add(10 * time.Second))
 		if _, err := c.Read(make([]byte, 1)); err == nil {
 			return "idle-not-closed", fmt.Sprintf("idle connection %d is still open after Shutdown", i)
